@@ -59,8 +59,13 @@ def to_xml(node: Node, level: int = 0) -> str:
                 # The problem is that <para> tags are treated idiosyncratically because their rules aren't fully
                 #  supported. They appear within node content, unlike other tags.
                 content = content.replace('&lt;para&gt;', '<para>').replace('&lt;/para&gt;', '</para>')
-        xml += str(content) + close_tag + "\n"
-        closed = True
+        xml += str(content)
+        if len(node.children) > 0:
+            # mixed content: the children belong inside the element, after its text
+            xml += "\n"
+        else:
+            xml += close_tag + "\n"
+            closed = True
     elif len(node.children) > 0:
         xml += "\n"
     for child in node.children:
